@@ -114,9 +114,11 @@ CHECKS = {
                 technique="runtime monitoring: differential comparison of executions with and without a duplicated command",
                 floors={"quick": {"c14_duplicate_pair": 1500, "c14_dup_claim": 200, "c14_dup_release": 150, "c14_dup_open": 200, "c14_dup_close": 150}}),
     "C15": dict(module=H, level="exploration",
-                rule="Same engine with a usage database; every retirement judged by the conservation monitor and an independent classifier.",
+                rule="Same engine with a usage database; every retirement judged by the conservation monitor and an independent classifier; "
+                     "plus the exhaustive product 1-4 sides x 8 moods per side x pruned x blur through the real _summarize_mailbox/_summarize_nameplate_usage.",
                 nontrivial_rule="a history counts if a retirement record was classified; distinct by history hash.",
-                floors={"quick": {"c15_classified_mailbox": 100, "c15_classified_nameplate": 100, "c15_status_row": 100}}),
+                floors={"quick": {"c15_classified_mailbox": 100, "c15_classified_nameplate": 100, "c15_status_row": 100,
+                                  "c15_classifier_case": 18000}}),
     "C16": dict(module=H, level="exploration",
                 rule="Same engine with blur intervals 1,7,60,61,97,3600,86400 s; every usage row written judged by the blur post-condition.",
                 nontrivial_rule="a history counts if a blurred row was written; distinct by history hash.",
